@@ -74,6 +74,14 @@ func FromRSchema(s *regex.RSchema) (*JSchema, error) {
 		return nil, errs.ErrRegexExample.F(err)
 	}
 
+	// The generator doesn't know every construction (anchors and word boundaries
+	// inside the expression, for instance). An example which doesn't match would
+	// become a schema that fails its own "regex" rule: every schema the type is
+	// registered on would be refused with an error that quotes a text nobody wrote.
+	if s.RE != nil && !s.RE.Match(example) {
+		return nil, errs.ErrRegexExample.F(fmt.Sprintf("the generated example %q does not match the expression", example))
+	}
+
 	// JSON string literals: Go's %q writes escapes (\a, \x01, \U000e0001) which JSight doesn't have.
 	jsonExample, err := stdJson.Marshal(string(example))
 	if err != nil {
